@@ -1,7 +1,7 @@
-\* one token, 5 values, 2 iterators; full transition graph exported for the product walk
+\* quick: one token, 4 values, 2 iterators (iterators against each other and against edits); graph exported
 SPECIFICATION Spec
 CONSTANTS
-  K = 5
+  K = 4
   T = 1
   I = 2
   MaxToks = 1
